@@ -14,7 +14,7 @@ def T(module, *names, partial=False):
           "Kanzi.Properties.C01": "Kanzi.C01", "Kanzi.Properties.C19_cli": "Kanzi.C19",
           "Kanzi.Properties.C05_jobs": "Kanzi.C05", "Kanzi.Properties.C12_ans0": "Kanzi.C12",
           "Kanzi.Properties.C01_none": "Kanzi.C01none", "Kanzi.Properties.C03_bound": "Kanzi.C03", "Kanzi.Properties.C19_levels": "Kanzi.C19",
-          "Kanzi.Properties.ConstsTie": "Kanzi.ConstsTie", "Kanzi.Properties.BitOpsTie": "Kanzi.BitOpsTie"}[module]
+          "Kanzi.Properties.ConstsTie": "Kanzi.ConstsTie", "Kanzi.Properties.BitOpsTie": "Kanzi.BitOpsTie", "Kanzi.Properties.C12_range": "Kanzi.C12"}[module]
     return [{"module": module, "name": n if n.startswith("Kanzi.") else ns + "." + n, "partial": partial or n.endswith("_partial")} for n in names]
 
 
@@ -55,6 +55,7 @@ GOLDEN = {"name": "golden", "timeout": 7200}
 JOBS = {"name": "jobs", "kmodel": "jobs"}
 IMAGE = {"name": "image", "kmodel": "image"}
 LEVELS = {"name": "levels", "timeout": 7200}
+RANGE = {"name": "range", "kmodel": "range", "timeout": 3600}
 MNONE = "Kanzi.Properties.C01_none"
 MJOBS = "Kanzi.Properties.C05_jobs"
 JOBS_T = ["C05_jobs_partition", "C05_jobs_fewer", "C05_jobs_closed_form", "C05_jobs_errors", "C05_bwt_chunks_covered_gen", "C05_bwt_chunks_covered"]
@@ -201,13 +202,14 @@ PROPS["C11"] = {
 
 PROPS["C12"] = {
     "title": "Entropy codecs: exact inverse pairs with bit-exact consumption", "design_ref": "5.12", "level": "proof",
-    "technique": "PARTIAL Lean proof: varint, alphabet, NONE codec, ANS/Range frequency headers, rANS step incl. reciprocal division proved as inverse pairs with exact consumption on bit strings; whole ANS0 chunks tied differentially; all 9 codecs searched directly on the real code",
+    "technique": "PARTIAL Lean proof: varint, alphabet, NONE codec, frequency headers, the whole ANS order-0 codec and the whole RANGE codec proved as inverse pairs with exact consumption on bit strings, models tied byte-exactly to the Go encoders; all 9 codecs searched directly on the real code",
     "facts": ["Consts", "BitOps"],
     "theorems": T(M12, "C12_varint", "C12_alphabet", "C12_none", "C12_freq_header", "C12_freq_header_needs_sum", "C12_freq_header_after_normalize", "C12_ans_reciprocal", "C12_ans_encode_closed_form", "C12_ans_step")
                 + T(M16, "C16_normalize")
-                + T("Kanzi.Properties.C12_ans0", "C12_ans0_single_state", "C12_ans0_interleaved", "C12_ans0_payload_le", "C12_ans0_chunk", "C12_ans0_chunk_sz", "C12_ans0_one_chunk", "C12_ans0_block") + T(MCT, "entropy_consts", "consts_nonvacuous") + T(MBO, "entropy_layouts", "entropy_pairs_mirror"),
-    "streams": [ENTSMALL, ENTDIRECT],
-    "level_text": "PARTIAL PROOF. Proved in Lean, each as `decode (encode x ++ rest) = (x, rest)` for every trailing bit string (exact consumption): VarInt, alphabet (all three encodings), the NONE codec for every length incl. 0 and > 2^23, the ANS order-0 and Range frequency headers (correct iff the table sums to 2^lr - which C16_normalize guarantees: C12_freq_header_after_normalize), one rANS step incl. the reciprocal-multiply division for every frequency and state. The whole ANS order-0 codec is proved: one state over any symbol list, the 4 interleaved states sharing one word stream, header + chunk, and the complete block Write/Read with per-chunk normalised tables (C12_ans0_block: for all bytes, lr in [8,15], chunk size < 2^26, decode(encode blk ++ rest) = (blk, rest)); the same model is tied differentially (byte-identical output on thousands of blocks). NOT modelled: the encoder's finite output buffer for ANS0, Huffman, Range arithmetic, ANS order 1, FPAQ, CM, TPAQ, TPAQX - searched directly on the real code (entdirect: all 9 codecs, lengths around every chunk boundary, 1..256 symbols, adversarial histograms, misaligned start, trailing sentinel, Read()==Written()).",
+                + T("Kanzi.Properties.C12_ans0", "C12_ans0_single_state", "C12_ans0_interleaved", "C12_ans0_payload_le", "C12_ans0_chunk", "C12_ans0_chunk_sz", "C12_ans0_one_chunk", "C12_ans0_block")
+                + T("Kanzi.Properties.C12_range", "C12_range_init", "C12_range_renorm", "C12_range_renorm_model", "C12_range_step", "C12_range_tables", "C12_range_payload", "C12_range_chunk", "C12_range_one_chunk", "C12_range_chunk_lr", "C12_range_block") + T(MCT, "entropy_consts", "consts_nonvacuous") + T(MBO, "entropy_layouts", "entropy_pairs_mirror"),
+    "streams": [ENTSMALL, RANGE, ENTDIRECT],
+    "level_text": "PARTIAL PROOF. Proved in Lean, each as `decode (encode x ++ rest) = (x, rest)` for every trailing bit string (exact consumption): VarInt, alphabet (all three encodings), the NONE codec for every length incl. 0 and > 2^23, the ANS order-0 and Range frequency headers (correct iff the table sums to 2^lr - which C16_normalize guarantees: C12_freq_header_after_normalize), one rANS step incl. the reciprocal-multiply division for every frequency and state. The whole ANS order-0 codec is proved: one state over any symbol list, the 4 interleaved states sharing one word stream, header + chunk, and the complete block Write/Read with per-chunk normalised tables (C12_ans0_block: for all bytes, lr in [8,15], chunk size < 2^26, decode(encode blk ++ rest) = (blk, rest)); the same model is tied differentially (byte-identical output on thousands of blocks). The whole order-0 RANGE codec is proved too: the carry-less renormalisation loop leaves after at most 2 shifts with range > 0xFFFF (C12_range_renorm), one encodeByte/decodeByte pair keeps both sides' registers equal with the decoder's code inside [low, low+range) and exact consumption (C12_range_step), and Write+Dispose followed by any bits then Read returns the block and leaves those bits, for every length incl. 0, every chunk size and logRange 8..15 (C12_range_block); tied byte-exactly by the range stream incl. searched blocks that take the rare truncation / double-shift branches. NOT modelled: the encoder's finite output buffer for ANS0, Huffman, ANS order 1, FPAQ, CM, TPAQ, TPAQX - searched directly on the real code (entdirect: all 9 codecs, lengths around every chunk boundary, 1..256 symbols, adversarial histograms, misaligned start, trailing sentinel, Read()==Written()).",
     "level_note": BASE_NOTE + "logRange restricted to [8,15] as used by the factory (16 is accepted by the public constructors but unusable: observation in DESIGN.md).",
     "assumptions": ["adaptive binary codecs run the identical predictor on both sides (searched)"],
 }
@@ -290,7 +292,7 @@ PROPS["C19"] = {
     "assumptions": ["close(2) reports deferred write errors", "unlink is atomic"],
 }
 
-HOOK_COMMITS = ["a321cbc", "4ed9fca"]
+HOOK_COMMITS = ["a321cbc", "4ed9fca", "2a9b696"]
 
 # properties not (yet) claimed: reason shown in MANIFEST.not_applicable
 NOT_APPLICABLE = {}
